@@ -54,8 +54,12 @@ def flag(p, letters):
     return [(p, ['(strncmp($%d, "%s", 1) != 0)' % (p, l) for l in letters])]
 
 
+# a ColPerm value above the last enumerator: every one of these atoms holds, so a range test or an exhaustive != list both qualify
+COLPERM = [(1, ['($1->ColPerm > MY_PERMC)'] + ['($1->ColPerm != %s)' % v for v in
+                ('NATURAL', 'MMD_ATA', 'MMD_AT_PLUS_A', 'COLAMD', 'METIS_AT_PLUS_A', 'PARMETIS', 'METIS_ATA', 'ZOLTAN', 'MY_PERMC')])]
 EXPERT = (
     enum_range(1, '$1->Fact', ['DOFACT', 'SamePattern', 'SamePattern_SameRowPerm', 'FACTORED'])
+    + COLPERM
     + enum_range(1, '$1->Trans', ['NOTRANS', 'TRANS', 'CONJ'])
     + enum_range(1, '$1->Equil', ['NO', 'YES'])
     + square(2, ['SLU_NC', 'SLU_NR'], 'SLU_GE')
@@ -66,13 +70,13 @@ EXPERT = (
     + [(14, ['($13->ncol != 0)', '($13->ncol != $14->ncol)'])]
 )
 ORACLE = {
-    'gssv': enum_range(1, '$1->Fact', ['DOFACT']) + square(2, ['SLU_NC', 'SLU_NR'], 'SLU_GE') + dense(7, 2),
+    'gssv': enum_range(1, '$1->Fact', ['DOFACT']) + COLPERM + square(2, ['SLU_NC', 'SLU_NR'], 'SLU_GE') + dense(7, 2),
     'gssvx': EXPERT,
     'gsisx': EXPERT,
     'gstrs': enum_range(1, '$1', ['NOTRANS', 'TRANS', 'CONJ']) + square(2, ['SLU_SC'], 'SLU_TRLU') + square(3, ['SLU_NC'], 'SLU_TRU')
-             + dense(6, 2, ncol=False),
+             + dense(6, 2),
     'gsrfs': enum_range(1, '$1', ['NOTRANS', 'TRANS', 'CONJ']) + square(2, ['SLU_NC'], 'SLU_GE') + square(3, ['SLU_SC'], 'SLU_TRLU')
-             + square(4, ['SLU_NC'], 'SLU_TRU') + dense(10, 2, ncol=False) + dense(11, 2, ncol=False),
+             + square(4, ['SLU_NC'], 'SLU_TRU') + dense(10, 2) + dense(11, 2, ncol=False) + [(11, ['($10->ncol != $11->ncol)'])],
     'gscon': [(1, ['(*$1 != \'1\')', '(strncmp($1, "O", 1) != 0)', '(strncmp($1, "I", 1) != 0)'])]
              + square(2, ['SLU_SC'], 'SLU_TRLU') + square(3, ['SLU_NC'], 'SLU_TRU'),
     'gsequ': square(1, ['SLU_NC'], 'SLU_GE', nonneg_only=True),
